@@ -68,15 +68,52 @@ func (c19) Generate(r *sim.Rand, tier string) *sim.Scenario {
 		maxCalls *= 3 // long histories
 	}
 	ncalls := r.Range(1, maxCalls)
+	long := r.Bool(0.006)
+	if long {
+		// a long-lived metric: hundreds of calls, tens of thousands of positions
+		// (running counts kept in a narrow type, periodic re-basing, ...)
+		ncalls = r.Range(250, 600)
+		ninst = 1
+		sc.Cfg["instances"] = 1
+	}
 	pFault := []float64{0, 0.1, 0.25}[r.Intn(3)]
 	if tier == "thorough" && r.Bool(0.5) {
 		sc.Cfg["enum"] = 1
 		ncalls = r.Range(1, 16)
 	}
 	pMatch := []float64{0.1, 0.5, 0.9}[r.Intn(3)]
+	// sparse reads (long histories): Result is read only after a chosen number
+	// of accepted calls since the last read, at and around powers of two
+	sparse := long && r.Bool(0.7)
+	if sparse {
+		sc.Cfg["sparse"] = 1
+		ncalls = r.Range(400, 1100)
+	}
+	gaps := []int{128, 255, 256, 257, 512, 513, 64, 100}
+	sinceRead, nextRead := 0, gaps[r.Intn(len(gaps))]
 	for k := 0; k < ncalls; k++ {
 		c := r.Intn(ninst)
+		if sparse && sinceRead >= nextRead {
+			sc.Steps = append(sc.Steps, sim.Step{C: c, Op: "result", Out: -1})
+			sinceRead, nextRead = 0, gaps[r.Intn(len(gaps))]
+		}
 		switch {
+		case sparse && r.Bool(0.97):
+			// accepted calls only (below), small batches so that a thousand calls stay cheap
+			sinceRead++
+			n := r.Range(1, 12)
+			st := sim.Step{C: c, Op: "acc", N: n, B: r.Bool(0.3), Out: -1}
+			yp := make([]float64, n)
+			yt := make([]float64, n)
+			for i := range yp {
+				yp[i] = c19enc(c19Labels[r.Intn(nlabels)])
+				yt[i] = yp[i]
+				if !r.Bool(pMatch) {
+					yt[i] = c19enc(c19Labels[r.Intn(nlabels)])
+				}
+			}
+			st.F = append(append(st.F, yp...), yt...)
+			sc.Steps = append(sc.Steps, st)
 		case r.Bool(pFault):
 			n := r.Range(1, 6)
 			st := sim.Step{C: c, Op: "bad", Tag: c19Bad[r.Intn(len(c19Bad))], N: n, Out: -1}
@@ -90,6 +127,9 @@ func (c19) Generate(r *sim.Rand, tier string) *sim.Scenario {
 			sc.Steps = append(sc.Steps, sim.Step{C: c, Op: "result", Out: -1})
 		default:
 			n := c19Batch(r)
+			if long && r.Bool(0.8) {
+				n = r.Range(120, 300)
+			}
 			st := sim.Step{C: c, Op: "acc", N: n, B: r.Bool(0.3), Out: -1}
 			yp := make([]float64, n)
 			yt := make([]float64, n)
@@ -305,7 +345,7 @@ func (c19) execOne(sc *sim.Scenario) *sim.Outcome {
 				rejectedBetween = true
 			}
 			accepted[c]++
-			if !checkResult(c, where) {
+			if sc.Cfg["sparse"] != 1 && !checkResult(c, where) {
 				return finish(out, lh, sig, start)
 			}
 		case "again":
@@ -396,6 +436,11 @@ func (c19) execOne(sc *sim.Scenario) *sim.Outcome {
 			if accepted[c] > 0 {
 				pendingReject[c] = true
 			}
+		}
+	}
+	for c := 0; c < ninst; c++ {
+		if !checkResult(c, "end of history") {
+			return finish(out, lh, sig, start)
 		}
 	}
 	// twin: same data, other partition and order
